@@ -70,6 +70,11 @@ def gen_cases(tier, seed):
         drive = {"A": S.field_spec(rng, dev, o, str(rng.choice(["uniform", "ramp"])), b=b),
                  "currents": S.current_spec(rng, dev, o, "const" if nt else "none", strength=0.3)}
         case = {"device": dev, "options": o, "drive": drive, "monitors": ["adaptive"], "kind": kind, "cost": 25 if scr else 6}
+        if kind in ("normal", "big_steps", "equal_dt") and not scr:
+            # a retried update is THE update for the reduced step: what is answered after r refusals satisfies the documented equation
+            # with dt * m^r in every place dt occurs (long-double oracle of C02 on every call, accepted retries counted)
+            case["monitors"] = ["adaptive", "step"]
+            case["cost"] = 12
         if k % 8 in (0, 6):
             case["history"] = ["used", "used_moved"][(k // 8) % 2]  # the Device object was solved before with other options
         cases.append(case)
